@@ -10,6 +10,7 @@ ap.add_argument('-t', default='quick')
 ap.add_argument('-o', default=None)
 ap.add_argument('--props', required=True)
 ap.add_argument('--keep', action='store_true')
+ap.add_argument('--baseline', action='store_true', help='also run the repository test suite on the mutant')
 ap.add_argument('--seed', default='0')
 ap.add_argument('mutants', nargs='+')
 a = ap.parse_args()
@@ -46,6 +47,10 @@ def worker(i):
             with lock:
                 for p in props: results.append((name, p, 'apply-failed', r.stderr.strip()[:100])); print(name, p, 'apply-failed', flush=True)
             continue
+        if a.baseline:
+            t = sh('cargo test --workspace --no-fail-fast --offline 2>&1 | grep -E "^test result" ', cwd=f'{lab}/repo', env=env)
+            ok = t.stdout.count('test result: ok') >= 4 and 'FAILED' not in t.stdout
+            with lock: results.append((name, 'BASELINE', 'pass' if ok else 'FAIL', '')); print(name, 'BASELINE', 'pass' if ok else 'FAIL', flush=True)
         b = sh('cargo build --release --offline', cwd=f'{lab}/harness', env=env)
         if b.returncode != 0:
             with lock:
